@@ -50,6 +50,8 @@ KNOWN = [
 ]
 
 FIXED = [
+ ("C02", "7a31e9f", "C02.R7 parse_index_filename('a\\u{e9}0000000.idx'): byte index 2 is not a char boundary (findings/T10)"),
+ ("C02", "bd5220d", "C02.R4 SizeManifest::parse with esize_bytes = 8 and two entries of u64::MAX: Iterator::sum overflow in validate (findings/T10)"),
  ("C02", "64b3128", "C02.R4 ESpec::parse('b:{18446744073709551615K=n}'): multiply overflow on a u64 parsed from the spec string (findings/T9)"),
  ("C02", "51299f4", "(no rule) get_compression_at_offset: u64 overflow from ESpec numbers (findings/T9)"),
  ("C02", "fa335dc", "C02.R3 extract_pem_certificate: '-----END CERTIFICATE-----\\n-----BEGIN CERTIFICATE-----\\n' sliced with begin > end (findings/T2; found by triage of E-bounds' not-decided sites)"),
